@@ -2700,7 +2700,7 @@ func (p *wat2X64Worker) buildFunc_ins(
 		fmt.Fprintf(w, "    # i64.popcnt\n")
 		fmt.Fprintf(w, "    mov    rax, qword ptr [rbp%+d]\n", sp0)
 		fmt.Fprintf(w, "    popcnt rax, rax\n")
-		fmt.Fprintf(w, "    mov    dword ptr [rbp%+d], rax\n", ret0)
+		fmt.Fprintf(w, "    mov    qword ptr [rbp%+d], rax\n", ret0)
 		fmt.Fprintln(w)
 
 	case token.INS_I64_ADD:
